@@ -157,6 +157,26 @@ pub fn gen(out: &mut Out, thorough: bool) {
         let k = out.rng.below(chars.len() as u64 + 1) as usize;
         l(format!("c03 pull {} {}", o, cps(&chars[..k].iter().collect::<String>())), out);
     }
+    // long tokens around internal size thresholds (stack buffers, inline/heap switches): totality must
+    // not depend on where a multi-byte character, an escape or the end of a token falls
+    {
+        let thresholds: &[usize] = if thorough { &[8, 16, 24, 32, 64, 128, 256, 512, 1024, 4096, 65536] } else { &[16, 32, 64, 128, 256, 1024] };
+        let tails = ["", "é", "€", "😀", "\\n", "\\ud83d\\ude00", "é€😀é€😀"];
+        let mut n = 0u64;
+        for &thr in thresholds {
+            for d in 0..8usize {
+                let len = thr + d - 4;
+                for (ti, tail) in tails.iter().enumerate() {
+                    let body = "a".repeat(len);
+                    let o = crate::parse::ALL_OPTS[(thr + d + ti) % 4];
+                    l(format!("c03 pull {} {}", o, cps(&format!("[\"{}{}z\",{{\"{}{}\":-{}.{}e-{}}}]", body, tail, body, tail, "7".repeat(len), "7".repeat(len), "1".repeat(len.min(30))))), out);
+                    l(crate::parse::req_bytes(format!("\"{}{}", body, tail).as_bytes(), o), out);
+                    n += 2;
+                }
+            }
+        }
+        out.count_n("threshold_straddle_docs", n);
+    }
     // random bytes and random damage through the byte entry point, all option records
     let n_rand = if thorough { 200_000 } else { 30_000 };
     for i in 0..n_rand {
